@@ -54,6 +54,8 @@ var verifC03Pairs = [][2]verifC03Req{
 	{{"POST", "/s1"}, {"POST", "/s1"}},
 	{{"HEAD", "/s1"}, {"GET", "/d/7"}},
 	{{"GET", "/x7"}, {"POST", "/d/7"}},
+	{{"POST", "/m"}, {"POST", "/m"}},
+	{{"GET", "/d/3"}, {"GET", "/x/3"}},
 }
 
 func verifC03Router(sh verifC03Shape) *Router {
@@ -87,6 +89,8 @@ func verifC03Router(sh verifC03Shape) *Router {
 	r.GET("/s2", body("s2"))
 	r.GET("/d/{id}", body("d"), mws...)
 	r.GET("/{v}", body("v"))
+	r.Add("/m", body("m"), "TRACE", "PUT", "DELETE", "GET")
+	r.GET("/x/{id}", body("x"))
 	return r
 }
 
@@ -100,13 +104,17 @@ func verifHarness_C03_pairs() {
 	cfg := verifCfg()
 	sh := verifC03Shapes[cfg%len(verifC03Shapes)]
 	pair := verifC03Pairs[(cfg/len(verifC03Shapes))%len(verifC03Pairs)]
-	warm := (cfg/(len(verifC03Shapes)*len(verifC03Pairs)))%2 == 1
+	warm := (cfg / (len(verifC03Shapes) * len(verifC03Pairs))) % 4 // 0 none, 1 both, 2 only the first, 3 only the second
 	r := verifC03Router(sh)
 	// what each request produces when it is the only request
 	soloA1, soloA2 := verifC03Serve(verifC03Router(sh), pair[0])
 	soloB1, soloB2 := verifC03Serve(verifC03Router(sh), pair[1])
-	if warm {
-		verifC03Serve(r, pair[0]) // earlier traffic: fills the cache, triggers lazy initialisations
+	// earlier traffic: fills the cache (so that one request can hit while the
+	// other misses and evicts), triggers lazy initialisations
+	if warm == 1 || warm == 2 {
+		verifC03Serve(r, pair[0])
+	}
+	if warm == 1 || warm == 3 {
 		verifC03Serve(r, pair[1])
 	}
 	if verifSymbolic() {
